@@ -66,6 +66,7 @@ type Walker struct {
 	MaxPaths  int
 	MaxDepth  int
 	ForceBool bool // decide bool-typed results at return
+	RangeCap  int  // loops over collections of symbolic size are explored for 0..RangeCap elements, then assumed to end
 	Assume     map[string]IntervalSet // initial regions of symbolic integers (e.g. one struct field per walk)
 	AssumeBool map[string]bool
 	// hooks
@@ -88,6 +89,7 @@ type Walker struct {
 	defers    [][]deferred
 	aborted   string
 	abortKind string
+	loopCond  bool
 	Exploded  bool
 }
 
@@ -102,7 +104,7 @@ type deferred struct {
 }
 
 func NewWalker(p *Program) *Walker {
-	return &Walker{P: p, LoopFuel: 3, MaxPaths: 20000, MaxDepth: 4, Opaque: map[string]bool{}}
+	return &Walker{P: p, LoopFuel: 3, MaxPaths: 20000, MaxDepth: 4, Opaque: map[string]bool{}, RangeCap: 3}
 }
 
 type abortPath struct{ kind, detail string }
@@ -624,7 +626,10 @@ func (w *Walker) exec(fn *ssa.Function, args []*Term, bindings []*Term, depth in
 			case *ssa.If:
 				c := w.val(fr, x.Cond)
 				prev = b
-				if w.decide(c) {
+				w.loopCond = isLoopHeader(b)
+				taken := w.decide(c)
+				w.loopCond = false
+				if taken {
 					b = b.Succs[0]
 				} else {
 					b = b.Succs[1]
@@ -655,6 +660,17 @@ func (w *Walker) exec(fn *ssa.Function, args []*Term, bindings []*Term, depth in
 		w.abort("unsupported", "block without terminator")
 	next:
 	}
+}
+
+func isLoopHeader(b *ssa.BasicBlock) bool {
+	for _, p := range b.Preds {
+		for x := p; x != nil; x = x.Idom() {
+			if x == b {
+				return true
+			}
+		}
+	}
+	return false
 }
 
 func (w *Walker) runDefers(fr *frame) {
@@ -880,6 +896,9 @@ func (w *Walker) step(fr *frame, in ssa.Instruction) {
 		it := w.val(fr, x.Iter)
 		id := w.fresh("next:" + it.String())
 		ok := &Term{Op: "fresh", Name: fmt.Sprintf("more(%s)#%d", it.Args[0].String(), id), Typ: types.Typ[types.Bool]}
+		if w.RangeCap > 0 && id > w.RangeCap {
+			ok = mkBool(false) // bounded exploration of collections of unknown size
+		}
 		tt := x.Type().(*types.Tuple)
 		k := &Term{Op: "fresh", Name: fmt.Sprintf("key(%s)#%d", it.Args[0].String(), id), Typ: tt.At(1).Type()}
 		v := &Term{Op: "elem", Args: []*Term{it.Args[0]}, ID: id, Typ: tt.At(2).Type()}
@@ -1641,6 +1660,12 @@ func (w *Walker) decideIntConst(a *Term, op token.Token, n int64) bool {
 	}
 	sat := cur.Intersect(satisfying(op, n))
 	uns := cur.Intersect(satisfying(negOp(op), n))
+	if a.Op == "len" && w.loopCond && w.RangeCap > 0 && n >= int64(w.RangeCap) && !sat.Empty() && !uns.Empty() && (op == token.GTR || op == token.GEQ) {
+		// loop condition "index < len(x)" with index >= RangeCap: explore only collections of at most RangeCap elements
+		w.state.Ints[key] = uns
+		w.state.IntT[key] = a
+		return false
+	}
 	var res bool
 	switch {
 	case uns.Empty() && !sat.Empty():
